@@ -56,14 +56,132 @@ def gen_sched(r, n):
     return out[:n]
 
 
+def mcme_progs(r):
+    """2-3 consumers that also request, 1 producer with >= 2 emplaces, optionally a pure requester; ops interleaved"""
+    k = r.choice([2, 2, 2, 3])
+    progs = []
+    for t in range(k):
+        p = [r.choice(['R', 'G', 'G']) for _ in range(r.randint(2, 4))]
+        if 'G' not in p:
+            p[-1] = 'G'
+        if 'R' not in p and r.random() < 0.7:
+            p.insert(r.randrange(len(p)), 'R')
+        progs.append([(x,) for x in p[:4]])
+    ne = r.choice([2, 2, 3, 3, 4])
+    pp = ['E'] * ne
+    for _ in range(r.choice([0, 0, 1])):
+        pp.insert(r.randrange(len(pp) + 1), r.choice(['R', 'U']))
+    t = len(progs)
+    progs.append([('E', 10 * (t + 1) + i) if x == 'E' else (x,) for i, x in enumerate(pp)])
+    if r.random() < 0.35:
+        progs.append([('R',)] * r.randint(1, 3))
+    order = list(range(len(progs)))
+    r.shuffle(order)
+    progs = [progs[i] for i in order]
+    while worst(progs) > 70:
+        progs[max(range(len(progs)), key=lambda j: len(progs[j]))].pop()
+    return progs
+
+
+def probe_cases():
+    """Deterministic probes: a consumer is parked INSIDE getUpdate (after kA of its steps: after the claim, after the payload read, after T's move
+    constructor) while a second request, a second emplacement and (jB steps of) a second consumer's getUpdate happen; then the first consumer resumes.
+    Schedules are written as thread orders: every program is padded with updateRequested() calls so that no thread finishes inside the window, hence the
+    candidate list is [0..n-1] and decision = thread id, whatever the number of steps an operation takes in the code under test."""
+    out = []
+    for k in (2, 3):
+        for sep_req in (False, True):
+            for kA in (1, 2, 3):
+                for jB in (1, 2, 3, 4):
+                    if k == 3 and (kA + jB) % 2 == 1:
+                        continue          # thin out the 3-consumer variants
+                    # thread ids: consumers 0..k-1, producer k, optional requester k+1
+                    P = k
+                    Q = k + 1
+                    progs = [[('G',)]] + [[('G',)] if sep_req else [('R',), ('G',)] for _ in range(k - 1)]
+                    progs.append([('E', 41), ('E', 42)] if sep_req else [('R',), ('E', 41), ('E', 42)])
+                    if sep_req:
+                        progs.append([('R',), ('R',)])
+                    n = len(progs)
+                    order = list(range(n))                         # starts
+                    order += ([Q] + [P] * 3) if sep_req else [P] * 4   # first request, E41 (claim, emplace, publish)
+                    order += [0] * kA                              # consumer 0 enters getUpdate and is parked after kA steps
+                    order += [Q] if sep_req else [1]               # second request
+                    order += [P] * 3                               # E42
+                    order += [1] * jB                              # consumer 1: jB steps of its getUpdate
+                    if k == 3:
+                        order += [2] * (2 if sep_req else 3)
+                    order += [0] * 4 + [1] * 4                     # consumer 0 resumes, consumer 1 finishes
+                    for t in range(n):
+                        need = order.count(t)                      # steps of t inside the window (incl. start): keep it alive throughout
+                        while len(progs[t]) < need:
+                            progs[t].append(('U',))
+                    w = worst(progs)
+                    sched = order + [0] * (w + 4)
+                    for keep in (False, True):
+                        out.append({'keep': keep, 'budget': w + 2, 'progs': [list(p) for p in progs], 'sched': sched, 'probe': 'k%d%s kA%d jB%d' % (k, 'Q' if sep_req else '', kA, jB)})
+    return out
+
+
+def impl_property(c, p):
+    """the executable property evaluated on the implementation's output ALONE (python mirror of C24Check.viol_dup / viol_thin / viol_order, used only to
+    pre-select candidates in the search ladder; every candidate is then judged by the Coq function): returns a reason or None"""
+    gets = [v for t in sorted(p['results']) for tag, v in p['results'][t] if tag == TAGS['get']]
+    if len(gets) != len(set(gets)):
+        return 'value returned twice'
+    emplaced = set()
+    for t, prog in enumerate(c['progs']):
+        rs = list(p['results'].get(t, []))
+        for o in prog:
+            if o[0] == 'R':
+                continue
+            if not rs:
+                break
+            tag, v = rs.pop(0)
+            if o[0] == 'E' and v == 1:
+                emplaced.add(o[1])
+    if any(g not in emplaced for g in gets):
+        return 'value never emplaced'
+    ncas, nload = {}, {}
+    pending, avail = False, None
+    for t, site in p['steps']:
+        name = SITES[site]
+        if name == 'ar.request.cas':
+            pending = True
+        elif name == 'ar.tryEmplace.cas':
+            ncas[t] = ncas.get(t, 0) + 1
+        elif name == 'ar.getUpdate.cas':
+            nload[t] = nload.get(t, 0) + 1
+        elif name == 'ar.tryEmplace.emplace':
+            tags = [o[1] for o in c['progs'][t] if o[0] == 'E']
+            if not pending:
+                return 'emplacement without a request step since the previous one'
+            pending = False
+            k = ncas.get(t, 0) - 1
+            avail = tags[k] if 0 <= k < len(tags) else 0
+        elif name == 'ar.getUpdate.move':
+            gr = [(v if tag == TAGS['get'] else None) for tag, v in p['results'].get(t, []) if tag in (TAGS['get'], TAGS['getnone'])]
+            k = nload.get(t, 0) - 1
+            v = gr[k] if 0 <= k < len(gr) else None
+            if v is not None:
+                if avail != v:
+                    return 'delivery does not directly follow the emplacement of that value'
+                avail = None
+    return None
+
+
 def gen_case(r):
     nt = r.choice([2, 2, 3, 3, 3, 4])
     shape = r.random()
     progs = []
     roles = []
-    if shape < 0.5:          # documented primary usage and generalisations with ONE consumer
+    if shape < 0.35:         # several consumers that also request + one producer emplacing several distinct tags (+ maybe a requester)
+        progs = mcme_progs(r)
+        w = worst(progs)
+        return {'keep': r.random() < 0.5, 'budget': w + 2, 'progs': progs, 'sched': gen_sched(r, w + 6)}
+    if shape < 0.65:         # documented primary usage and generalisations with ONE consumer
         roles = ['cons'] + [r.choice(['prod', 'prod', 'req', 'prodreq']) for _ in range(nt - 1)]
-    elif shape < 0.85:       # several consumers
+    elif shape < 0.9:        # several consumers
         k = r.choice([2, 2, 3]) if nt > 2 else 2
         roles = ['cons'] * k + [r.choice(['prod', 'prodreq']) for _ in range(nt - k)]
         if 'prod' not in roles and 'prodreq' not in roles:
@@ -119,24 +237,92 @@ def n_consumers(c):
     return sum(1 for p in c['progs'] if any(o[0] == 'G' for o in p))
 
 
+def execute(exes, cases):
+    outs = [None] * len(cases)
+    for keep in (False, True):
+        idx = [i for i, c in enumerate(cases) if c['keep'] == keep]
+        got = ls_common.run_cases(exes[keep], [line_of(cases[i]) for i in idx])
+        for i, o in zip(idx, got):
+            outs[i] = o
+    return outs
+
+
+IMPORTS = 'From DV Require Import Base.Sched Model.AsyncReqModel Model.C24Check.'
+
+
+def viol_text(c, o):
+    return ('AsyncRequest property fails on the real class [c++%d build] (a value returned twice / never emplaced / not emplaced since the latest request, or '
+            'tryEmplaceUpdate succeeded without a request): %s -> %s' % (17 if c['keep'] else 14, line_of(c)[:200], o[:300]))
+
+
+def replay_of(c, o):
+    return {'case': line_of(c), 'build': 'c++%d' % (17 if c['keep'] else 14), 'output': o,
+            'cmd': 'echo "<case>" | build/harness/h_asyncreq%s-*' % ('17' if c['keep'] else '')}
+
+
+def search_ladder(ctx, exes, differing):
+    """the lockstep trace differs from the model but no run violated the property yet: look for a concrete failing input.  The differing programs and a
+    targeted family (2-3 consumers that also request, one producer emplacing >= 2 distinct tags) are run under thousands of decision lists; the executable
+    property is evaluated on the implementation alone; candidates are confirmed by the Coq judge."""
+    r = ctx.rng
+    total = 4000 if ctx.quick else 30000
+    base = []
+    seen = set()
+    for c in differing:
+        key = repr(c['progs'])
+        if key not in seen and len(base) < 6:
+            seen.add(key)
+            base.append(c['progs'])
+    fam = [mcme_progs(r) for _ in range(40)] + [c['progs'] for c in probe_cases()[::6]]
+    cases = []
+    while len(cases) < total:
+        progs = r.choice(base) if (base and r.random() < 0.3) else r.choice(fam)
+        w = worst(progs)
+        cases.append({'keep': r.random() < 0.5, 'budget': w + 2, 'progs': progs, 'sched': gen_sched(r, w + 6)})
+    outs = execute(exes, cases)
+    cands = []
+    reasons = {}
+    for c, o in zip(cases, outs):
+        p = ls_common.parse_vsched(o, SITES, TAGS)
+        if p is None or 'error' in p:
+            continue
+        why = impl_property(c, p)
+        if why:
+            reasons[why] = reasons.get(why, 0) + 1
+            if len(cands) < 12:
+                t = term_of(c, p)
+                if t is not None:
+                    cands.append((c, p, o, t))
+    ctx.cov['evaluations'] += len(cases)
+    ctx.cov['search_ladder'] = {'runs': len(cases), 'programs': len(base) + len(fam), 'property_failures_on_impl': reasons}
+    found = 0
+    if cands:
+        verdicts = ls_common.judge_parallel(ctx, IMPORTS, 'judge_ar', [t for _, _, _, t in cands]) or []
+        for v, (c, p, o, _) in zip(verdicts, cands):
+            if v == 2:
+                found += 1
+                ctx.violation(viol_text(c, o), dict(replay_of(c, o), found_by='search ladder after a lockstep disagreement'))
+    ctx.cov['search_ladder']['confirmed_by_coq_judge'] = found
+    ctx.phase('search_ladder')
+
+
 def run(ctx):
+    import os
     ctx.prove(models=['Model/C24Check.v'])
     exe14 = dv.build_harness('h_asyncreq', ['h_asyncreq.cpp'], need_lib=False)
     exe17 = dv.build_harness('h_asyncreq17', ['h_asyncreq.cpp'], need_lib=False, extra_flags=['-std=c++17'])
+    exes = {False: exe14, True: exe17}
     ctx.phase('build')
     r = ctx.rng
     # 1. regression: the former witness of the two-consumer double delivery (fixed in /repo), replayed on the real class in both builds
     wit_progs = [[('R',), ('E', 7)], [('G',)], [('G',)]]
     wit_sched = [0, 0, 0, 0, 0, 0, 1, 0, 1, 0, 1, 0, 1, 0, 0] + [0] * 8
     wits = [{'keep': k, 'budget': 20, 'progs': wit_progs, 'sched': wit_sched} for k in (False, True)]
-    n = 400 if ctx.quick else 9000
-    cases = wits + [gen_case(r) for _ in range(n)]
-    outs = [None] * len(cases)
-    for keep, exe in ((False, exe14), (True, exe17)):
-        idx = [i for i, c in enumerate(cases) if c['keep'] == keep]
-        got = ls_common.run_cases(exe, [line_of(cases[i]) for i in idx])
-        for i, o in zip(idx, got):
-            outs[i] = o
+    # 2. deterministic probes: a consumer parked inside the move of obj_ while request -> emplace -> second consumer's get happen
+    probes = [] if os.environ.get('C24_SKIP_PROBES') else probe_cases()     # (switch used only to validate the search ladder on its own)
+    n = 330 if ctx.quick else 9000
+    cases = wits + probes + [gen_case(r) for _ in range(n)]
+    outs = execute(exes, cases)
     terms, kept = [], []
     distinct = set()
     for c, o in zip(cases, outs):
@@ -151,31 +337,38 @@ def run(ctx):
             distinct.add((c['keep'], o.split('| status')[0]))
     ctx.cov['evaluations'] += len(cases)
     ctx.cov['distinct_nontrivial'] += len(distinct)
-    ctx.cov['rule'] = ('random programs (2-4 threads, 1-4 ops each over R/U/E<tag>/G, unique tags; 50% one consumer, 35% several consumers, 15% unconstrained) x random bursty '
-                       'schedules (decision lists <= 80 ints), half on the C++14 build (detail::OpResult), half on the C++17 build (std::optional), one fork per case under '
-                       'vsched; non-trivial = some tryEmplaceUpdate succeeded; distinct = distinct (build, trace, results) strings')
-    verdicts = ls_common.judge_parallel(ctx, 'From DV Require Import Base.Sched Model.AsyncReqModel Model.C24Check.', 'judge_ar', terms)
+    ctx.cov['rule'] = ('2 regression cases + %d deterministic probes (consumer parked after 1/2/3 steps of getUpdate while request, emplacement and 1-4 steps of another '
+                       "consumer's getUpdate happen; thread-order schedules) + random programs (2-5 threads, unique tags; 35%% several requesting consumers + one producer with "
+                       '2-4 emplacements, 30%% one consumer, 25%% several consumers, 10%% unconstrained) x random bursty schedules (decision lists <= 80 ints), half on the C++14 '
+                       'build (detail::OpResult), half on the C++17 build (std::optional), one fork per case under vsched; non-trivial = some tryEmplaceUpdate succeeded; '
+                       'distinct = distinct (build, trace, results) strings; on a lockstep disagreement a search ladder of several thousand further runs looks for a concrete '
+                       'failing input') % len(probes)
+    verdicts = ls_common.judge_parallel(ctx, IMPORTS, 'judge_ar', terms)
     if verdicts is None:
         ctx.broken.append('correspondence L(C24): the model no longer evaluates')
         return
     hist = {}
+    differing = []
     for i, (v, (c, p, o)) in enumerate(zip(verdicts, kept)):
         hist[v] = hist.get(v, 0) + 1
-        std = 17 if c['keep'] else 14
-        replay = {'case': line_of(c), 'build': 'c++%d' % std, 'output': o,
-                  'cmd': 'echo "<case>" | build/harness/h_asyncreq%s-*' % ('17' if c['keep'] else '')}
         if v == 2:
-            ctx.violation('AsyncRequest property fails on the real class [c++%d build] (a value returned twice / never emplaced / not emplaced since the latest request, or '
-                          'tryEmplaceUpdate succeeded without a request): %s -> %s' % (std, line_of(c)[:200], o[:300]), replay)
+            ctx.violation(viol_text(c, o), replay_of(c, o))
         elif v == 1:
-            ctx.broken.append('correspondence L(C24) [c++%d build]: real trace differs from the model on %s -> %s' % (std, line_of(c)[:160], o[:200]))
+            differing.append(c)
+            ctx.broken.append('correspondence L(C24) [c++%d build]: real trace differs from the model on %s -> %s' % (17 if c['keep'] else 14, line_of(c)[:160], o[:200]))
     ctx.cov['verdict_histogram'] = {'agree': hist.get(0, 0), 'differ_property_holds': hist.get(1, 0), 'property_fails': hist.get(2, 0)}
     ctx.cov['traces_validated_against_impl'] += hist.get(0, 0)
     ctx.cov['regression_two_consumers'] = {'c++14': outs[0][outs[0].find('| results'):][:80], 'c++17': outs[1][outs[1].find('| results'):][:80]}
     ctx.cov['cases_by_consumer_threads'] = {str(k): sum(1 for c, _, _ in kept if min(n_consumers(c), 3) == k) for k in (0, 1, 2, 3)}
+    ctx.cov['cases_with_two_or_more_deliveries'] = sum(1 for _, p, _ in kept if sum(1 for rs in p['results'].values() for tag, v in rs if tag == TAGS['get']) >= 2)
     ctx.cov['cases_with_delivery'] = sum(1 for _, p, _ in kept if any(tag == TAGS['get'] for rs in p['results'].values() for tag, v in rs))
     ctx.cov['status_histogram'] = {k: sum(1 for _, p, _ in kept if p['status'] == v) for k, v in (('done', 0), ('budget', 2))}
     ctx.sample({'case': line_of(cases[0])[:120], 'impl_c++14': outs[0][:400]})
     ctx.sample({'case': line_of(cases[1])[:120], 'impl_c++17': outs[1][:400]})
-    ctx.sample({'case': line_of(cases[2])[:200], 'impl': outs[2][:300]})
+    if probes:
+        ctx.sample({'probe': probes[2]['probe'], 'case': line_of(probes[2])[:200], 'impl': outs[4][:400]})
+    ctx.sample({'case': line_of(cases[-1])[:200], 'impl': outs[-1][:300]})
     ctx.phase('correspond')
+    # 3. search ladder: disagreement without a concrete failing input so far
+    if differing and hist.get(2, 0) == 0:
+        search_ladder(ctx, exes, differing)
